@@ -74,6 +74,8 @@ def generate(rng, tier):
                 want = "0"
             else:
                 a2 = rezone_same_instant(rng, info["anchor"])
+                if info["kind"] == "nominal" and info["n"] is not None:
+                    a2 = None     # a derived far anchor of a month/year interval legitimately depends on the local date
                 other = args.replace(info["anchor"], a2) if a2 else None
                 if other and info["kind"] == "exact" and info["fmt"] != 1 and rng.random() < 0.5:
                     other = other.replace(info["d"], respell(rng, info["d"]), 1)
